@@ -810,6 +810,7 @@ class RemoteStreamFlowPath(
             command = [
                 "ln",
                 "-snf",
+                "--",
                 shlex.quote(str(target)),
                 shlex.quote(self.__str__()),
             ]
@@ -825,6 +826,7 @@ class RemoteStreamFlowPath(
             command = [
                 "ln",
                 "-nf",
+                "--",
                 shlex.quote(str(target)),
                 shlex.quote(self.__str__()),
             ]
